@@ -44,6 +44,13 @@ func c07corpus(r *drv.Run, n int) []*corpus.Item {
 	toolErr := false
 	for i := 0; len(items) < n; i++ {
 		rr := vk.CaseRNG(r.Seed, 0, "c07corpus", int64(i))
+		if i%64 == 5 {
+			// a megabyte of 0xFF: hashed in one update and inside zlib/gzip
+			p := corpus.MakePayload(rr, "hugeff")
+			items = append(items, corpus.HashItems(p)...)
+			items = append(items, corpus.FlateFamily(rr, p)...)
+			continue
+		}
 		switch i % 8 {
 		case 6:
 			items = append(items, corpus.PNGItem(rr), corpus.PNGItem(rr), corpus.PNGItem(rr))
@@ -107,7 +114,9 @@ func runC07(r *drv.Run) drv.Spec {
 				line += " splits=" + randSplits(rr, len(it.Enc), 6)
 			}
 		case refHash(it.Kind, nil) != "":
-			line += " splits=" + randSplits(rr, len(it.Enc), 8)
+			if rr.Intn(3) != 0 {
+				line += " splits=" + randSplits(rr, len(it.Enc), 8)
+			} // else: the whole input in one update call
 		default:
 			line += fmt.Sprintf(" dtotal=%d", len(it.Payload)+70000)
 			if rr.Intn(2) == 0 {
